@@ -144,10 +144,13 @@ func (f *Frame) instr(in ssa.Instruction, guard string, st *State) {
 		} else {
 			fv = f.val(x.Call.Value)
 		}
-		f.defers = append(f.defers, &deferRec{guard: guard, call: x, args: args, fnVal: fv, order: len(f.defers)})
+		f.defers = append(f.defers, &deferRec{block: x.Block(), guard: guard, call: x, args: args, fnVal: fv, order: len(f.defers)})
 	case *ssa.RunDefers:
 		for i := len(f.defers) - 1; i >= 0; i-- {
 			d := f.defers[i]
+			if !f.canReach(d.block, x.Block()) {
+				continue // registered on a path that cannot lead here
+			}
 			g := and(guard, d.guard)
 			// execute on a copy and merge by guard
 			ds := st.clone()
